@@ -57,6 +57,17 @@ type property struct {
 
 func root() string { return ev.Root() }
 
+// outRoot is where evidence and replays are written: /verif, except when
+// VERIF_REPO redirects the build to a mutant worktree (then outputs go to
+// /tmp/verif-mut/<worktree name> so that committed evidence is never
+// overwritten by an experiment).
+func outRoot() string {
+	if ev.Repo() == "/repo" {
+		return root()
+	}
+	return filepath.Join(os.TempDir(), "verif-mut", filepath.Base(ev.Repo()))
+}
+
 func harnessDir() string { return filepath.Join(root(), "harness") }
 
 func baseEnv() []string {
@@ -75,6 +86,7 @@ func baseEnv() []string {
 	set("GOSUMDB", "off")
 	set("GOTOOLCHAIN", "local")
 	set("VERIF_ROOT", root())
+	set("VERIF_REPO", ev.Repo())
 	return env
 }
 
@@ -83,7 +95,35 @@ func die(code int, format string, a ...any) {
 	os.Exit(code)
 }
 
+// modfileArg is "-modfile=<file>" when VERIF_REPO redirects the goose module
+// to a scratch worktree (used for sensitivity mutants only; registered
+// commands always build /repo).
+var modfileArg string
+
+func setupRepoOverride(scratch string) error {
+	repo := ev.Repo()
+	if repo == "/repo" {
+		return nil
+	}
+	b, err := os.ReadFile(filepath.Join(harnessDir(), "go.mod"))
+	if err != nil {
+		return err
+	}
+	s := strings.Replace(string(b), "=> /repo", "=> "+repo, 1)
+	mf := filepath.Join(scratch, "go.mod")
+	if err := os.WriteFile(mf, []byte(s), 0o644); err != nil {
+		return err
+	}
+	sum, _ := os.ReadFile(filepath.Join(harnessDir(), "go.sum"))
+	os.WriteFile(filepath.Join(scratch, "go.sum"), sum, 0o644)
+	modfileArg = "-modfile=" + mf
+	return nil
+}
+
 func goBuild(args []string, log *bytes.Buffer) error {
+	if modfileArg != "" {
+		args = append([]string{args[0], modfileArg}, args[1:]...)
+	}
 	cmd := exec.Command("go", args...)
 	cmd.Dir = harnessDir()
 	cmd.Env = baseEnv()
@@ -177,6 +217,10 @@ func run(prop *property, tier int, tierName string, seed int64, replay, scratch 
 		parts = sel
 	}
 
+	if err := setupRepoOverride(scratch); err != nil {
+		fmt.Fprintf(os.Stderr, "INCONCLUSIVE property=%s: %v\n", id, err)
+		return 2
+	}
 	// ---- build ----
 	binDir := filepath.Join(scratch, "bin")
 	os.MkdirAll(binDir, 0o755)
@@ -361,7 +405,7 @@ func run(prop *property, tier int, tierName string, seed int64, replay, scratch 
 	perPartSamples := map[string]int{}
 	seenReplay := map[string]bool{}
 
-	replayDir := filepath.Join(root(), "replays", id)
+	replayDir := filepath.Join(outRoot(), "replays", id)
 	for _, r := range results {
 		ps := psum[r.part]
 		if ps == nil {
@@ -522,8 +566,8 @@ func run(prop *property, tier int, tierName string, seed int64, replay, scratch 
 		"violations":  len(violations),
 	}
 	b, _ := json.MarshalIndent(evd, "", " ")
-	os.MkdirAll(filepath.Join(root(), "evidence"), 0o755)
-	if err := os.WriteFile(filepath.Join(root(), "evidence", id+".json"), b, 0o644); err != nil {
+	os.MkdirAll(filepath.Join(outRoot(), "evidence"), 0o755)
+	if err := os.WriteFile(filepath.Join(outRoot(), "evidence", id+".json"), b, 0o644); err != nil {
 		fmt.Fprintf(os.Stderr, "cannot write evidence: %v\n", err)
 		return 2
 	}
@@ -540,7 +584,7 @@ func run(prop *property, tier int, tierName string, seed int64, replay, scratch 
 }
 
 func saveLog(id string, r *shardResult) {
-	dir := filepath.Join(root(), "replays", id, "logs")
+	dir := filepath.Join(outRoot(), "replays", id, "logs")
 	os.MkdirAll(dir, 0o755)
 	out := r.out
 	if len(out) > 200000 {
